@@ -29,6 +29,8 @@ DECIDED = [
     "PATH-2 path lookup descends through the node's own sections (first matching child, ValueError if none), '..' is the parent, '.' the node itself; absolute paths restart at the document",
     "FIND-1 find() inspects self's own child sections only and returns the first match (all matches with findAll)",
     "FIND-2 find_related returns / collects an object only inside the block of its relation flag (children, siblings, parents) and recurses with siblings=False, parents=False",
+    'FIND-4 find_related: the parent walk repeats only on paths that know `recursive`',
+    "TRAV-4 converse: iterproperties / itervalues drop an element only when the caller's filter rejects it",
 ]
 NOT_DECIDED = ["relative path arithmetic (_get_relative_path: posixpath.commonprefix/relpath/normpath on name strings)",
                "uniqueness of the child a name denotes (C04)", "value comparisons inside _matches"]
